@@ -215,7 +215,7 @@ def run(ctx):
         r.check(good, "_util:%s#arms" % nm, "text writer does not map None to null and text to %s bytes" % enc, where(f, f.node))
 
     # ---- R3 message and message-set
-    r = ctx.rule("R3", "message formats 0 and 1 and the message-set entry layout equal the schema", 3, "F")
+    r = ctx.rule("R3", "message formats 0 and 1 and the message-set entry layout equal the schema", 4, "F")
     em = ctx.func(KCQ + "._encode_message")
     terms, env = W.encoder_terms(prog, em)
     endians |= env.endians
@@ -267,7 +267,22 @@ def run(ctx):
             norm(packs[0].args[1]) == "offset" and norm(packs[0].args[2]).startswith("len(") and len(apps) == 2 and \
             norm(apps[1].args[0]) == norm(packs[0].args[2])[4:-1] and apps[0].args[0] is packs[0]
         endians.add(W.parse_fmt(packs[0].args[0].value)[0]) if packs else None
-    r.check(ok, "%s#entry-layout" % ems.qname, "message-set entries are not (INT64 offset, INT32 size, message) in list order", where(ems, ems.node))
+    if ok:
+        encs = [c for c in ast.walk(loops[0]) if isinstance(c, ast.Call) and call_name(c) == "_encode_message"]
+        rebinds = [x for x in ast.walk(loops[0]) if isinstance(x, ast.Assign) and any(unparse(t) == unparse(loops[0].target) for t in x.targets)]
+        ok = bool(encs) and all(len(c.args) == 1 and norm(c.args[0]) == unparse(loops[0].target) for c in encs) and not rebinds
+    r.check(ok, "%s#entry-layout" % ems.qname, "message-set entries are not (INT64 offset, INT32 size, the caller's message as given) in list order",
+            where(ems, ems.node), "messages are re-stamped with another format inside the set: inner messages of a compressed wrapper "
+            "lose their timestamp / disagree with the wrapper's format")
+    kinit = ctx.func("client:KafkaClient.__init__")
+    ck = ctx.cfg(kinit)
+    sets = [n for n in ck.nodes if n.kind == "stmt" and isinstance(n.stmt, ast.Assign) and any(self_attr(t) in ("clientId", "_clientIdBytes") for t in n.stmt.targets)]
+    okc = bool(sets)
+    for n in sets:
+        deps = [norm(t.stmt.test) for t, lab in ck.control_deps(n.id) if t.kind == "test"]
+        okc = okc and deps == ["clientId is not None"]
+    r.check(okc, "%s#client-id-null-vs-empty" % kinit.qname, "a supplied client id is not used exactly when it `is not None` (an empty id is a "
+            "legal, distinct value)", where(kinit, kinit.node), "client constructed with clientId='' sends the library default id in every header")
 
     # ---- R4 codec pairing
     r = ctx.rule("R4", "attribute constant <-> compression function agree on the encoder side and mirror the decoder", 3, "A")
@@ -491,6 +506,12 @@ MUTANTS = [
     {"id": "commit-group-ascii-only", "file": "kafkacodec.py",
      "old": "        message += write_short_text(group)\n        message += struct.pack(\">i\", group_generation_id)",
      "new": "        message += write_short_ascii(group)\n        message += struct.pack(\">i\", group_generation_id)", "expect": "C04.R1", "note": "finding F14"},
+    {"id": "set-restamps-magic", "file": "kafkacodec.py",
+     "old": "            if magic == 0:\n                encoded_message = KafkaCodec._encode_message(message)\n            elif magic == 1:\n                encoded_message = KafkaCodec._encode_message(message)",
+     "new": "            if message.magic != magic:\n                message = attr.evolve(message, magic=magic)\n            encoded_message = KafkaCodec._encode_message(message)",
+     "expect": "C04.R3", "note": "seeded C04-3"},
+    {"id": "empty-client-id-replaced", "file": "client.py", "old": "        if clientId is not None:\n            self.clientId = clientId",
+     "new": "        if clientId:\n            self.clientId = clientId", "expect": "C04.R3", "note": "seeded C04-4"},
     {"id": "gzip-marked-snappy", "file": "kafkacodec.py", "old": "        return Message(magic, CODEC_GZIP, None, gzipped)", "new": "        return Message(magic, CODEC_SNAPPY, None, gzipped)", "expect": "C04.R4"},
     {"id": "version-not-clamped", "file": "kafkacodec.py", "old": "        if api_version >= 2:\n            req_api_version = 2\n            magic = 1",
      "new": "        if api_version >= 2:\n            req_api_version = api_version\n            magic = 1", "expect": "C04.R6"},
